@@ -299,6 +299,26 @@ def run(F, R, tier):
                 det = "value of a match arm that is propagated"
             elif kind == "mcall" and pa["m"] in ("expect", "unwrap"):
                 det = ".%s() on an io::Result" % pa["m"]
+            elif kind == "mcall" and pa["m"] in ("map", "and_then", "map_err") and pa.get("recv") is x and is_io_result(pa):
+                ok, det = True, ".%s(..) keeps the error; its io::Result is examined in turn" % pa["m"]
+            elif kind == "tup":
+                # `let (file, readable) = match mode { "r" => (File::open(path), true), .. }`: stored under a name; the
+                # uses of that name are producers examined here
+                cur_ = pa
+                while True:
+                    up_ = par.get(id(cur_))
+                    if up_ is None:
+                        break
+                    uk_ = up_.get("k")
+                    if (uk_ == "block" and up_.get("expr") is cur_) or (uk_ == "match" and not H.is_try(up_) and up_["scrut"] is not cur_) or \
+                            (uk_ == "if" and (up_.get("t") is cur_ or up_.get("e") is cur_)):
+                        cur_ = up_
+                        continue
+                    break
+                i_ = [j_ for j_, e_ in enumerate(pa.get("es", [])) if e_ is x]
+                if up_ is not None and up_.get("k") == "let" and up_.get("init") is cur_ and up_.get("pat", {}).get("k") == "tuple" and i_ and \
+                        i_[0] < len(up_["pat"]["pats"]) and up_["pat"]["pats"][i_[0]].get("k") == "bind":
+                    ok, det = True, "kept under the name `%s`; its uses are examined" % up_["pat"]["pats"][i_[0]].get("name")
             R.ob("io-result-propagated", "%s#%d %s" % (p, k, H.last(x.get("callee") or x.get("m") or "?")), ok, det, F.loc(g, x.get("line")))
             k += 1
     R.count("io::Result producers in builtins/pcap.rs", n_p)
